@@ -72,6 +72,10 @@ type Exec struct {
 	axiomTerms []axiomTerm
 	name       string
 	curBlock   *ssa.BasicBlock
+	famBirth   map[string]string // family version symbol -> $alloc symbol current when the version was created
+	epochAlloc map[int]string
+	specHook   func(term, famSym string)
+	curBinders []string
 	macros     map[string]bool
 	loopEffects map[*ssa.BasicBlock]*effects
 	entryMods  *modSet
@@ -90,7 +94,7 @@ func newExec(w *World, fn *ssa.Function, con *Contract) *Exec {
 		globals: map[string]Val{}, fams: map[string]famSig{}, written: map[string]bool{}, closures: map[string]ClosureV{}, funcvals: map[string]FuncV{},
 		localAddrs: map[string]LocalAddr{}, strlits: map[string]string{}, callStats: map[string]map[string]int{}, usedContracts: map[string]bool{},
 		lets: map[string]TV{}, stepBudget: 4000000, pathLimit: 6000,
-		declOwner: map[string]string{}, decAtHead: map[*ssa.BasicBlock]string{}, macros: map[string]bool{}, loopEffects: map[*ssa.BasicBlock]*effects{}, loopSets: map[*ssa.BasicBlock]map[*ssa.BasicBlock]bool{}, usedSpecFuncs: map[string]bool{}, namedPreds: map[string]string{}}
+		declOwner: map[string]string{}, decAtHead: map[*ssa.BasicBlock]string{}, famBirth: map[string]string{}, epochAlloc: map[int]string{0: "|$alloc@e0|"}, macros: map[string]bool{}, loopEffects: map[*ssa.BasicBlock]*effects{}, loopSets: map[*ssa.BasicBlock]map[*ssa.BasicBlock]bool{}, usedSpecFuncs: map[string]bool{}, namedPreds: map[string]string{}}
 	e.decl("(declare-sort Ref 0)")
 	e.decl("(declare-const null Ref)")
 	return e
@@ -324,13 +328,13 @@ func (e *Exec) load(s *State, addr Val, t types.Type) Val {
 		return v
 	case ElemAddr:
 		v := e.assemble(t, a.Key, func(p, so string) string {
-			return fmt.Sprintf("(%s %s %s)", e.cur(s, p, []string{"Ref", "Int"}, so), a.Arr, a.Idx)
+			return e.read(s, p, []string{"Ref", "Int"}, so, a.Arr, a.Idx)
 		})
 		e.loadFacts(s, t, v)
 		return v
 	case HeapAddr:
 		v := e.assemble(t, a.Key, func(p, so string) string {
-			return fmt.Sprintf("(%s %s)", e.cur(s, p, []string{"Ref"}, so), a.Ref)
+			return e.read(s, p, []string{"Ref"}, so, a.Ref)
 		})
 		e.loadFacts(s, t, v)
 		return v
@@ -340,7 +344,7 @@ func (e *Exec) load(s *State, addr Val, t types.Type) Val {
 		}
 		key := pointeeKey(t)
 		v := e.assemble(t, key, func(p, so string) string {
-			return fmt.Sprintf("(%s %s)", e.cur(s, p, []string{"Ref"}, so), a.T)
+			return e.read(s, p, []string{"Ref"}, so, a.T)
 		})
 		e.loadFacts(s, t, v)
 		return v
